@@ -489,9 +489,21 @@ impl<'a> Gen<'a> {
 
 /// the op lines of one case (without the `case` line)
 pub fn gen_case(mix: &str, rng: &mut Rng) -> Vec<String> {
+    // `c14-path` (mix `c14p`): per case one of the two blends, so that header failures at every
+    // layer AND the session / LISTEN / CLOSED branches of `Tcp::demux` are walked
+    let cfg_mix = mix;
+    let mix = if mix == "c14p" {
+        if rng.chance(2, 5) {
+            "c17"
+        } else {
+            "c14"
+        }
+    } else {
+        mix
+    };
     let third = rng.chance(1, 3);
     let cfg = Cfg {
-        mix: mix.to_string(),
+        mix: cfg_mix.to_string(),
         lat: *rng.pick(&[1u64, 1, 2, 3, 3, 5]),
         mtu: *rng.pick(&[1500u16, 1500, 1500, 576, 200]),
         arp: rng.chance(1, 4),
@@ -615,13 +627,19 @@ pub fn run(args: &Args) {
         worker_loop(|spec| exec::execute(&spec.lines().map(|s| s.to_string()).collect::<Vec<_>>()));
         return;
     }
-    let mix = if args.prop.starts_with("c17") { "c17" } else { "c14" };
+    let mix = if args.prop.starts_with("c17") {
+        "c17"
+    } else if args.prop == "c14-path" {
+        "c14p"
+    } else {
+        "c14"
+    };
     let mut out = Out::new(&args.out);
     out.max_failures = 30;
     let cases: Vec<Vec<String>> = if let Some(rp) = &args.replay {
-        vec![read_ops(rp).into_iter().filter(|l| !l.starts_with("case ") && !l.starts_with("crash")).collect()]
+        vec![read_ops(rp).into_iter().filter(|l| !l.starts_with("case ") && !l.starts_with("crash") && !l.starts_with("frame ")).collect()]
     } else {
-        let mut rng = Rng::new(args.seed ^ if mix == "c17" { 0x17de_0000 } else { 0x14de_0000 });
+        let mut rng = Rng::new(args.seed ^ if mix == "c17" { 0x17de_0000 } else if mix == "c14p" { 0x14ba_0000 } else { 0x14de_0000 });
         (0..args.cases).map(|_| gen_case(mix, &mut rng.fork())).collect()
     };
     let specs: Vec<String> = cases.iter().map(|c| c.join("\n")).collect();
